@@ -2,6 +2,7 @@ use crate::fw::*;
 pub mod c01;
 pub mod c02;
 pub mod c03;
+pub mod c04;
 pub mod c09;
 pub mod c10;
 pub mod c11;
@@ -14,6 +15,7 @@ pub fn run(prop: &str, tier: Tier) -> Report {
         "C01" => c01::run(tier),
         "C02" => c02::run(tier),
         "C03" => c03::run(tier),
+        "C04" => c04::run(tier),
         "C09" => c09::run(tier),
         "C10" => c10::run(tier),
         "C11" => c11::run(tier),
@@ -31,6 +33,7 @@ pub fn replay(prop: &str, _tier: Tier, case: &serde_json::Value) -> Vec<Violatio
         "C01" => c01::replay(case),
         "C02" => c02::replay(case),
         "C03" => c03::replay(case),
+        "C04" => c04::replay(case),
         "C09" => c09::replay(case),
         "C10" => c10::replay(case),
         "C11" => c11::replay(case),
@@ -46,6 +49,7 @@ pub fn replay(prop: &str, _tier: Tier, case: &serde_json::Value) -> Vec<Violatio
 pub fn worker(prop: &str, tier: Tier, args: &[String]) -> i32 {
     match prop {
         "C03" => crate::pool::child(&c03::C03, tier, args),
+        "C04" => crate::pool::child(&c04::C04, tier, args),
         _ => {
             eprintln!("unknown pooled property {prop}");
             2
